@@ -38,16 +38,30 @@ def extra(report, env):
                 except ValueError:
                     return 'text'
         return 'other'
-    for a in pool:
-        for b in pool:
+    import copy
+    pristine = copy.deepcopy(pool)
+    for ia, a in enumerate(pool):
+        for ib, b in enumerate(pool):
             p.set_variable('va', a)
             p.set_variable('vb', b)
             for op in '+-*/':
                 cases += 1
+                # outcomes are snapshotted at once (a result may alias an operand), operands are compared with pristine copies after
+                # every evaluation: an operand array that an evaluation changes makes the next evaluation of the same formula differ
                 r = p.parse('va%svb' % op)
-                r2 = p.parse('vb%sva' % op) if op in '+*' else None
-                if r2 is not None and repr(r) != repr(r2) and len(fails) < 5:
-                    fails.append({'formula': 'va%svb' % op, 'bind': [repr(a), repr(b)], 'detail': 'not commutative: %r vs %r' % (r, r2)})
+                snap = repr(r)
+                r = copy.deepcopy(r)
+                r2 = repr(p.parse('vb%sva' % op)) if op in '+*' else None
+                again = repr(p.parse('va%svb' % op))
+                if r2 is not None and snap != r2 and len(fails) < 5:
+                    fails.append({'formula': 'va%svb' % op, 'bind': [repr(pristine[ia]), repr(pristine[ib])], 'detail': 'not commutative: %s vs %s' % (snap, r2)})
+                if (again != snap or repr(a) != repr(pristine[ia]) or repr(b) != repr(pristine[ib])) and len(fails) < 5:
+                    fails.append({'formula': 'va%svb' % op, 'bind': [repr(pristine[ia]), repr(pristine[ib])],
+                                  'detail': 'evaluating twice over the same operand objects: %s then %s; operands afterwards %r, %r' % (snap, again, a, b)})
+                    pool[ia], pool[ib] = copy.deepcopy(pristine[ia]), copy.deepcopy(pristine[ib])
+                    a, b = pool[ia], pool[ib]
+                    p.set_variable('va', a)
+                    p.set_variable('vb', b)
                 if isinstance(a, (list, datetime.datetime)) or isinstance(b, (list, datetime.datetime)):
                     continue
                 x, y = num(a), num(b)
@@ -100,11 +114,20 @@ def extra(report, env):
         ok = (r['error'] == exp) if isinstance(exp, str) else (exp is None or r['result'] == exp)
         if not ok and len(fails) < 5:
             fails.append({'formula': text, 'detail': 'expected %r got %r' % (exp, r)})
+    # the same array object on both sides / used twice in one formula
+    arr = [1, 2, 4]
+    p.set_variable('va', arr)
+    for text, exp in (('va*2+va', [3, 6, 12]), ('va+va', [2, 4, 8]), ('va-va', [0, 0, 0]), ('(va+1)*va', [2, 6, 20]), ('va/va', [1, 1, 1])):
+        cases += 1
+        r = p.parse(text)
+        if (r['result'] != exp or arr != [1, 2, 4]) and len(fails) < 5:
+            fails.append({'formula': text, 'bind': ['[1, 2, 4]'], 'detail': 'expected %r got %r; operand afterwards %r' % (exp, r, arr)})
+            arr[:] = [1, 2, 4]
     # known finding: a one-element array operand broadcasts
     r = p.parse('{1,2}+{5}')
     known_e2e(report, 'C06-one-element-array-broadcast', r['error'] != '#VALUE!', '{1,2}+{5}',
               'a one-element array operand broadcasts like a scalar: {1,2}+{5} = %r instead of #VALUE!' % (r['result'],))
-    bounded(report, 'C06.pairs', 'all ordered pairs from a 19-value typed pool x (+ - * / &), date +- n for 15 cases, 8 array forms', cases, fails)
+    bounded(report, 'C06.pairs', 'all ordered pairs from a 19-value typed pool x (+ - * / &), each evaluated twice over the same operand objects (operands compared with pristine copies), date +- n for 15 cases, 8 array forms, 5 formulas using one array object twice', cases, fails)
 
 
 def replay(rp):
